@@ -19,6 +19,19 @@ CLAIMS = {
         "spence(z) = Li2(1-z); eko.constants read from installed source. Kernel variable assumed in (0,1).",
         "DESIGN.md section 3, C03",
     ),
+    "C01": (
+        "probe folding of the convolution routine (quad/basis/kernels opaque); atom inspection on partially evaluated operators",
+        "The quadrature is numerical and NOT decided; decided is its wiring. conv.convolution folded on probe objects (16 presence/mode "
+        "combinations, 3 empty-domain cases): the integrand handed to scipy's quad equals reg(z;args_reg) f(x/z)/z + sing(z;args_sing)(f(x/z)/z - f(x)) "
+        "in the basis' own mode, limits x(1+eps)..min(max(x/borders),1)(1-eps), breakpoints x/borders (exponentiated in log mode), tolerance, "
+        "and the returned value is the integral plus loc(x;args_loc) f(x); convolve_vector/convolve_operator visit each basis function (and grid "
+        "point) once in order; in every partially evaluated operator entry (central keys) each quadrature atom sits in the column of its own basis "
+        "index and is multiplied by a kinematics-independent weight times exactly its own convolution point (x; x(1+m^2/Q^2) CC heavy; x/eta for "
+        "heavy-quark initiated NC rows), errors carrying the same quadratures.",
+        "Trusted: CPython ast; yadsa partial evaluator; scipy.integrate.quad and eko.interpolation.(log_)evaluate_x as opaque primitives; "
+        "weights independent of the requested kinematics.",
+        "DESIGN.md section 3, C01",
+    ),
     "C02": (
         "normal-form comparison of folded coupling weights and LO operators with an independent PDG/CKM oracle",
         "Decides, as identities in Q2, sin^2(theta_W), MZ, MW, polarisation, propagator correction and nine symbolic CKM elements: charge and "
